@@ -2,41 +2,46 @@
 from engine.core import Harness, Unit, PropSpec
 from engine import units
 
-DISK, MAXD, UNW = 64, 12, 66
+DISK, MAXD, UNW = 48, 12, 50
 PATHS = {0: "random", 1: "sequential", 2: "iter", 3: "parse"}
 
-RT_Q = [(1, 3, 0), (1, 12, 5), (0, 0, 0)]
-RT_T = [(0, 7, 3), (1, 4, 0), (1, 8, 0), (0, 12, 0), (1, 0, 0)]
+# (H, n, start, path)
+RT_Q = [(1, 3, 0, 0), (1, 3, 0, 1), (1, 3, 0, 3), (1, 12, 5, 0), (0, 0, 0, 1)]
+RT_T = [(1, 3, 0, 2), (0, 7, 3, 0), (1, 4, 0, 0), (1, 8, 0, 1), (0, 12, 0, 3), (1, 0, 0, 0), (1, 12, 5, 1), (1, 12, 5, 3), (1, 7, 0, 0)]
 FB_Q = [(1, 3, 0, 0), (1, 3, 0, 1), (1, 3, 0, 3)]
-FB_T = [(0, 4, 0, 0), (1, 7, 2, 1), (1, 7, 2, 3), (1, 12, 0, 3), (0, 0, 0, 0), (1, 0, 0, 1), (1, 3, 0, 2)]
-FL_Q = [(1, 0, 0, 0), (1, 0, 0, 1), (1, 0, 0, 3), (1, 3, 0, 0)]
-FL_T = [(1, 3, 0, 1), (1, 3, 0, 3), (0, 4, 0, 0), (0, 0, 0, 3), (1, 7, 0, 1), (1, 12, 0, 3)]
+FB_T = [(0, 4, 0, 0), (1, 7, 2, 1), (1, 7, 2, 3), (1, 12, 0, 3), (0, 0, 0, 0), (1, 0, 0, 1), (1, 3, 0, 2), (1, 8, 0, 0)]
+# (H, n, start, path, bit_lo, bit_hi)
+FL_Q = [(1, 0, 0, 3, 0, 32), (1, 0, 0, 0, 0, 4), (1, 0, 0, 1, 0, 4), (1, 2, 0, 0, 4, 32)]
+FL_T = [(1, 3, 0, 3, 0, 32), (0, 4, 0, 3, 0, 32), (1, 3, 0, 0, 0, 4), (1, 3, 0, 1, 0, 4), (1, 2, 0, 1, 4, 32), (0, 0, 0, 0, 0, 32), (1, 7, 0, 3, 0, 32)]
 BU_Q = [(1, 3, 0, 3)]
 BU_T = [(1, 3, 0, 0), (1, 3, 0, 1), (0, 4, 0, 3), (1, 7, 0, 3)]
-TR_Q = [(1, 3, 0, 0), (1, 3, 0, 1), (1, 3, 0, 2), (1, 3, 0, 3)]
-TR_T = [(0, 0, 0, 0), (1, 12, 3, 1), (0, 7, 0, 3)]
+TR_Q = [(1, 3, 0, 0), (1, 3, 0, 1), (1, 3, 0, 3)]
+TR_T = [(1, 3, 0, 2), (0, 0, 0, 0), (1, 12, 3, 1), (0, 7, 0, 3)]
 
 
 def instances():
     out = []
     for grp, lst in (("q", RT_Q), ("t", RT_T)):
-        for (H, n, s) in lst:
-            out.append((grp, f"c17_roundtrip_h{H}_{n}_s{s}", f"roundtrip::<{H}>({n}, {s})",
-                        f"append(header,data); sync => Random read, Sequential read, iteration and parse_record all return the record byte-identical, iteration then ends [H={H}, {n} data bytes symbolic, start {s}]"))
+        for (H, n, s, p) in lst:
+            out.append((grp, f"c17_roundtrip_h{H}_{n}_s{s}_{PATHS[p]}", f"roundtrip::<{H}>({n}, {s}, {p})",
+                        f"append(header,data); sync => the {PATHS[p]} read path returns the record byte-identical (iteration then ends) [H={H}, {n} data bytes symbolic, start {s}]", False))
     for fam, call, q, t, obl in (
         ("flipbody", "bitflip_body", FB_Q, FB_T, "one flipped bit at ANY position of crc|header|data (symbolic position) => the read path reports an error, never valid data"),
-        ("fliplen", "bitflip_len", FL_Q, FL_T, "one flipped bit at any position of the 4-byte length field (second record follows) => never valid data and no panic"),
         ("burst", "burst_body", BU_Q, BU_T, "burst error of <= 32 bits (symbolic start bit and 32-bit pattern) inside crc|header|data => never valid data"),
         ("trunc", "truncated", TR_Q, TR_T, "only a strict prefix of the record visible (symbolic cut: flushed offset / zeros after the cut) => never valid data"),
     ):
         for grp, lst in (("q", q), ("t", t)):
             for (H, n, s, p) in lst:
-                out.append((grp, f"c17_{fam}_h{H}_{n}_s{s}_{PATHS[p]}", f"{call}::<{H}>({n}, {s}, {p})", f"{obl} [path {PATHS[p]}, H={H}, {n} data bytes symbolic, start {s}]"))
+                out.append((grp, f"c17_{fam}_h{H}_{n}_s{s}_{PATHS[p]}", f"{call}::<{H}>({n}, {s}, {p})", f"{obl} [path {PATHS[p]}, H={H}, {n} data bytes symbolic, start {s}]", fam == "burst"))
+    for grp, lst in (("q", FL_Q), ("t", FL_T)):
+        for (H, n, s, p, lo, hi) in lst:
+            out.append((grp, f"c17_fliplen_h{H}_{n}_s{s}_{PATHS[p]}_b{lo}_{hi}", f"bitflip_len::<{H}>({n}, {s}, {p}, {lo}, {hi})",
+                        f"one flipped bit at a symbolic position in [{lo},{hi}) of the 4-byte length field (a second record follows) => never valid data and no panic [path {PATHS[p]}, H={H}, {n} data bytes symbolic]", False))
     return out
 
 
 def generate(d):
-    lines = "\n".join(f"    fs_harness!(real, {n}, {UNW}, {{ {c} }});" for _, n, c, _ in instances())
+    lines = "\n".join(f"    fs_harness!(real, {n}, {UNW}, {{ {c} }});" for _, n, c, _, _ in instances())
     return units.seglog_overlay(d, ["seglog/fmodel.rs", "seglog/c17.rs"], consts={"DISK_BYTES": DISK, "MAXD": MAXD, "INSTANCES": lines})
 
 
@@ -49,20 +54,32 @@ B = (f"segment {DISK} bytes; data <= {MAXD} bytes with length concrete per insta
 def native_replay(rp, workroot):
     import re
     from engine.core import replay_bin
-    m = re.match(r"c17_(fliplen|flipbody|burst|trunc|roundtrip)_h(\d)_(\d+)_s(\d+)(?:_(\w+))?", rp["harness"])
+    m = re.match(r"c17_(fliplen|flipbody|burst|trunc|roundtrip)_h(\d)_(\d+)_s(\d+)_([a-z]+)", rp["harness"])
     if not m:
         return None, "no native reproducer"
     fam, H, n, s, path = m.groups()
-    return replay_bin("c17", [fam, H, n, s, path or "random"])
+    if fam != "burst":
+        return replay_bin("c17", [fam, H, n, s, path])
+    # the solver's concrete values, in kani::any() order: data[12], header[H], s (usize), pat (u32)
+    flat = [b for v in rp.get("concrete_vals", []) for b in v]
+    need = MAXD + int(H) + 8 + 4
+    if len(flat) < need:
+        return None, f"concrete playback values unavailable ({len(flat)} bytes)"
+    data, hdr = flat[:MAXD], flat[MAXD:MAXD + int(H)]
+    sb = flat[MAXD + int(H):MAXD + int(H) + 8]
+    pb = flat[MAXD + int(H) + 8:need]
+    sval = int.from_bytes(bytes(sb), "little")
+    pat = int.from_bytes(bytes(pb), "little")
+    return replay_bin("c17", ["burst", H, n, s, path, bytes(data).hex(), bytes(hdr).hex() or "00", sval, pat])
 
 
 def spec(tier, seed):
     hs = []
-    for grp, name, _, obl in instances():
-        hs.append(Harness(name, obligation=obl, encodes=ENC, bounds=B, timeout_s=900 if grp == "q" else 2400,
+    for grp, name, _, obl, wv in instances():
+        hs.append(Harness(name, obligation=obl, encodes=ENC, bounds=B, timeout_s=900 if grp == "q" else 2400, want_values=wv,
                           tiers=("quick", "thorough") if grp == "q" else ("thorough",)))
     hs.append(Harness("c17_vacuity_witness", expect_fail=True, obligation="twin: file model reachable", timeout_s=120))
-    u = Unit("seglog_c17", generate, hs, kani_flags=("-Z", "stubbing"), jobs=3, workers=5, crate_subdir="seglog", harness_prefix="verif::c17::")
+    u = Unit("seglog_c17", generate, hs, kani_flags=("-Z", "stubbing"), jobs=3, workers=5, crate_subdir="seglog", harness_prefix="verif::c17::", playback=False)
     return PropSpec("C17", [u], native_replay=native_replay,
                     assumptions=["file model: POSIX regular file; no short writes / IO errors", "crc32fast baseline (table) implementation instead of the cpuid-dispatched SIMD one",
                                  "ReadError::Io / WriteError::Io carry a unit payload"],
